@@ -577,6 +577,8 @@ def _size(t):
     return 1 + sum(_size(x) for x in t)
 
 
+_VALUE_OPS = {"astype", "round", "clip", "floor", "ceil", "abs", "squeeze", "flatten", "ravel", "cumsum", "sort", "flip",
+              "asarray", "array", "nan_to_num", "trunc", "rint", "negative", "exp", "log", "sqrt", "square"}
 LEAF_TAGS = {"const", "param", "glob", "func", "class", "bv", "loopvar", "carried", "loopout", "qsel", "msg"}
 
 
@@ -592,6 +594,11 @@ def atomic_diffs(a, b, path="", out=None):
         if a[0] in LEAF_TAGS and b[0] in LEAF_TAGS:
             out.append(f"{path}: {_short(a)} instead of {_short(b)}")
             return out
+        # the reviewed value wrapped in a value-changing operation (cast, rounding, clipping, ...)
+        for x, y, word in ((a, b, "is additionally transformed by"), (b, a, "is no longer transformed by")):
+            if x[0] == "op" and len(x) == 5 and x[1] in _VALUE_OPS and dict(x[2]).get("a") == y:
+                out.append(f"{path}: the value {word} {x[1]}")
+                return out
         # a negated condition / swapped branches
         if a == ("not", b) or b == ("not", a) or a == ("unop", "not", b) or b == ("unop", "not", a):
             out.append(f"{path}: condition negated")
